@@ -15,6 +15,7 @@ From Coq Require Import ZArith Bool List.
 From TF Require Import Word BFieldGen BField FieldOps FieldTheory PolyGen PolyCore PolySpec Ntt PolyDiv PolyInterp.
 From TF Require Import PolyInterpAlg PolyInterpBase PolyInterpProofs PolyCoreProofs PolyC07Wrap PolyDivProofs BFieldProofs BFieldOk PolyValueSem.
 From TF Require Import Dft NttDft PolyDeepenDiv PolyDeepenInterp PolyDeepenFmci PolyDeepenBary PolyDeepenColinear PolyDeepenCodec.
+From TF Require Import XField XFieldProofs XFieldOk XFieldNtt XFieldPoly PolyDeepenXfe.
 Import ListNotations.
 Open Scope Z_scope.
 
@@ -336,3 +337,101 @@ Theorem C08_display_value_semantics : forall {F K} (o : fops F) (fk : fieldK K) 
   forall a a', same fk ok den a a' -> poly_display_terms o a = poly_display_terms o a'.
 Proof. exact (@vs_display). Qed.
 Print Assumptions C08_display_value_semantics.
+
+(* ---------------------------------------------------------------- 10. Polynomial<XFieldElement>: every strategy, nothing assumed
+   k3_field = Fp[X]/(X^3 - X + 1), canon3 / denX (proofs/XFieldOk.v: xfe_field_ok); offsets and roots are base-field elements,
+   denoted through bden3 = iota o bden; transforms ntt_x / intt_x (proofs/XFieldNtt.v), wr_x = the tabulated roots in Fp3 *)
+Example C08_xfe_instance : field_ok xfe_ops k3_field canon3 denX.
+Proof. exact xfe_field_ok. Qed.
+Theorem C08_xfe_zerofier : forall rs, Forall canon3 rs -> Z.of_nat (length rs) + 1 <= 2 ^ 31 ->
+  exists z, pint_zerofier xfe_ops ntt_x intt_x rs = Some z /\ Forall canon3 z /\ length z = S (length rs) /\
+            peq k3_field (map denX z) (zspec k3_field (map denX rs)).
+Proof. exact xfe_zerofier. Qed.
+Print Assumptions C08_xfe_zerofier.
+Theorem C08_xfe_par_zerofier : forall nt rs, 1 <= nt -> Forall canon3 rs -> 2 * Z.of_nat (length rs) <= 2 ^ 31 ->
+  exists z, pint_par_zerofier xfe_ops ntt_x intt_x nt rs = Some z /\ Forall canon3 z /\
+            peq k3_field (map denX z) (zspec k3_field (map denX rs)).
+Proof. exact xfe_par_zerofier. Qed.
+Print Assumptions C08_xfe_par_zerofier.
+Theorem C08_xfe_tree_zerofier : forall dom, Forall canon3 dom -> Z.of_nat (length dom) + 1 <= 2 ^ 31 ->
+  exists t, pint_tree_new_from_domain xfe_ops ntt_x intt_x dom = Some t /\ Forall canon3 (pint_tree_zerofier xfe_ops t) /\
+            peq k3_field (map denX (pint_tree_zerofier xfe_ops t)) (zspec k3_field (map denX dom)).
+Proof. exact xfe_tree_zerofier. Qed.
+Print Assumptions C08_xfe_tree_zerofier.
+Theorem C08_xfe_lagrange_interpolate : forall dbg domain values, Forall canon3 domain -> Forall canon3 values ->
+  NoDup (map denX domain) -> length values = length domain -> domain <> [] -> Z.of_nat (length domain) + 1 <= 2 ^ 31 ->
+  exists r, pint_lagrange_interpolate xfe_ops ntt_x intt_x dbg domain values = Some r /\ Forall canon3 r /\
+            length r = length domain /\ interpolates k3_field (map denX domain) (map denX values) (map denX r).
+Proof. exact xfe_lagrange_interpolate. Qed.
+Print Assumptions C08_xfe_lagrange_interpolate.
+Theorem C08_xfe_batch_evaluate : forall p dom, Forall canon3 p -> Forall canon3 dom -> Z.of_nat (length dom) <= 2 ^ 29 ->
+  exists vs, pint_batch_evaluate xfe_ops ntt_x intt_x p dom = Some vs /\ Forall canon3 vs /\
+             map denX vs = map (peval k3_field (map denX p)) (map denX dom).
+Proof. exact xfe_batch_evaluate. Qed.
+Print Assumptions C08_xfe_batch_evaluate.
+Theorem C08_xfe_par_batch_evaluate : forall nt p dom, 1 <= nt -> Forall canon3 p -> Forall canon3 dom ->
+  Z.of_nat (length dom) <= 2 ^ 29 ->
+  exists vs, pint_par_batch_evaluate xfe_ops ntt_x intt_x nt p dom = Some vs /\ Forall canon3 vs /\
+             map denX vs = map (peval k3_field (map denX p)) (map denX dom).
+Proof. exact xfe_par_batch_evaluate. Qed.
+Print Assumptions C08_xfe_par_batch_evaluate.
+Theorem C08_xfe_interpolate : forall dbg domain values, Forall canon3 domain -> Forall canon3 values -> NoDup (map denX domain) ->
+  length values = length domain -> domain <> [] -> Z.of_nat (length domain) <= 2 ^ 29 ->
+  exists r, pint_interpolate xfe_ops ntt_x intt_x dbg domain values = Some r /\ Forall canon3 r /\
+            interpolates k3_field (map denX domain) (map denX values) (map denX r).
+Proof. exact xfe_interpolate. Qed.
+Print Assumptions C08_xfe_interpolate.
+Theorem C08_xfe_fast_interpolate : forall dbg domain values, Forall canon3 domain -> Forall canon3 values ->
+  NoDup (map denX domain) -> length values = length domain -> domain <> [] -> Z.of_nat (length domain) <= 2 ^ 29 ->
+  exists r, pint_fast_interpolate xfe_ops ntt_x intt_x dbg domain values = Some r /\ Forall canon3 r /\
+            interpolates k3_field (map denX domain) (map denX values) (map denX r).
+Proof. exact xfe_fast_interpolate. Qed.
+Print Assumptions C08_xfe_fast_interpolate.
+Theorem C08_xfe_par_interpolate : forall dbg nt domain values, 1 <= nt -> Forall canon3 domain -> Forall canon3 values ->
+  NoDup (map denX domain) -> length values = length domain -> domain <> [] -> Z.of_nat (length domain) <= 2 ^ 29 ->
+  exists r, pint_par_interpolate xfe_ops ntt_x intt_x dbg nt domain values = Some r /\ Forall canon3 r /\
+            interpolates k3_field (map denX domain) (map denX values) (map denX r).
+Proof. exact xfe_par_interpolate. Qed.
+Print Assumptions C08_xfe_par_interpolate.
+Theorem C08_xfe_par_fast_interpolate : forall dbg nt domain values, 1 <= nt -> Forall canon3 domain -> Forall canon3 values ->
+  NoDup (map denX domain) -> length values = length domain -> domain <> [] -> Z.of_nat (length domain) <= 2 ^ 29 ->
+  exists r, pint_par_fast_interpolate xfe_ops ntt_x intt_x dbg nt domain values = Some r /\ Forall canon3 r /\
+            interpolates k3_field (map denX domain) (map denX values) (map denX r).
+Proof. exact xfe_par_fast_interpolate. Qed.
+Print Assumptions C08_xfe_par_fast_interpolate.
+Theorem C08_xfe_batch_fast_interpolate : forall dbg domain matrix root order, Forall canon3 domain -> domain <> [] ->
+  NoDup (map denX domain) -> Z.of_nat (length domain) <= 2 ^ 29 ->
+  Forall (fun v => Forall canon3 v /\ length v = length domain) matrix ->
+  (dbg = true -> mod_pow root (order mod 2 ^ 32) = bfe_one) ->
+  exists rs, pint_batch_fast_interpolate xfe_ops ntt_x intt_x dbg domain matrix root order = Some rs /\
+             Forall2 (fun v r => Forall canon3 r /\ interpolates k3_field (map denX domain) (map denX v) (map denX r)) matrix rs.
+Proof. exact xfe_batch_fast_interpolate. Qed.
+Print Assumptions C08_xfe_batch_fast_interpolate.
+Theorem C08_xfe_fast_modular_coset_interpolate : forall dbg l offset cw m, (l <= 31)%nat -> canon offset ->
+  bden3 offset <> k0 k3_field -> Forall canon3 cw -> length cw = (2 ^ l)%nat -> Forall canon3 m ->
+  ~ pzero k3_field (map denX m) -> poly_degree xfe_ops m <= 2 ^ 29 ->
+  exists r, pint_fast_modular_coset_interpolate xfe_ops xb_act ntt_x intt_x dbg cw offset m = Some r /\ Forall canon3 r /\
+            forall ip, interpolates k3_field (coset_points k3_field wr_x (bden3 offset) l) (map denX cw) ip ->
+                       congruent k3_field ip (map denX m) (map denX r).
+Proof. exact xfe_fast_modular_coset_interpolate. Qed.
+Print Assumptions C08_xfe_fast_modular_coset_interpolate.
+Theorem C08_xfe_coset_extrapolate : forall dbg l offset cw pts, (l <= 31)%nat -> canon offset -> bden3 offset <> k0 k3_field ->
+  Forall canon3 cw -> length cw = (2 ^ l)%nat -> Forall canon3 pts -> Z.of_nat (length pts) <= 2 ^ 29 ->
+  exists vs, pint_coset_extrapolate xfe_ops xb_act ntt_x intt_x dbg offset cw pts = Some vs /\ Forall canon3 vs /\
+             extrapolation_of k3_field denX wr_x bden3 offset l cw pts vs.
+Proof. exact xfe_coset_extrapolate. Qed.
+Print Assumptions C08_xfe_coset_extrapolate.
+Theorem C08_xfe_batch_coset_extrapolate : forall dbg l offset cws pts, (l <= 31)%nat -> canon offset ->
+  bden3 offset <> k0 k3_field -> Forall canon3 cws -> Forall canon3 pts -> Z.of_nat (length pts) <= 2 ^ 29 ->
+  exists vs, pint_batch_coset_extrapolate xfe_ops xb_act ntt_x intt_x dbg offset (2 ^ Z.of_nat l) cws pts = Some vs /\
+             pint_par_batch_coset_extrapolate xfe_ops xb_act ntt_x intt_x dbg offset (2 ^ Z.of_nat l) cws pts = Some vs /\
+             Forall canon3 vs /\ batch_extrapolation_of k3_field denX wr_x bden3 offset l (2 ^ Z.of_nat l) cws pts vs.
+Proof. exact xfe_batch_coset_extrapolate. Qed.
+Print Assumptions C08_xfe_batch_coset_extrapolate.
+Theorem C08_xfe_barycentric_evaluate : forall l cw x, (l <= 31)%nat -> Forall canon3 cw -> length cw = (2 ^ l)%nat -> canon3 x ->
+  ~ In (denX x) (coset_points k3_field wr_x (k1 k3_field) l) ->
+  exists r, pint_barycentric_evaluate xfe_ops xb_act cw x = Some r /\ canon3 r /\
+            forall ip, interpolates k3_field (coset_points k3_field wr_x (k1 k3_field) l) (map denX cw) ip ->
+                       denX r = peval k3_field ip (denX x).
+Proof. exact xfe_barycentric_evaluate. Qed.
+Print Assumptions C08_xfe_barycentric_evaluate.
